@@ -68,6 +68,9 @@ Families == [
   \* temporaries: the same macro inside its own slot and twice in a sequence
   temps |-> [v |-> {Ida, Idx, One, Asg, Semi, KEnd},
              m |-> << Mac(0, <<L("id","x"), S("P"), L("end","END")>>, <<Tmp(0), Asg, One, Semi, Ins(0), Semi, Tmp(1), Asg, Tmp(0)>>) >>],
+  \* temporaries numbered with a gap (#0 and #2), the macro used inside its own slot and twice in a sequence
+  tempsgap |-> [v |-> {Ida, Idx, One, Asg, Semi, KEnd},
+                m |-> << Mac(0, <<L("id","x"), S("P"), L("end","END")>>, <<Tmp(0), Asg, One, Semi, Ins(0), Semi, Tmp(2), Asg, Tmp(0)>>) >>],
   \* two macros of equal priority using the same temporary numbers, uses visible at the same time
   temps2 |-> [v |-> {Ida, Idx, Idy, Semi},
               m |-> << Mac(0, <<L("id","x"), S("ID")>>, <<Tmp(0), Asg, Ins(0)>>),
